@@ -8,6 +8,7 @@ taken again and diffed.  Any difference in any field of any object is a violatio
 from __future__ import annotations
 
 import onnx_ir  # noqa: F401
+import onnx_ir as ir
 
 from vfpy import histories, invariants, snapshot
 from vfpy.gen_ops import Gen
@@ -28,6 +29,44 @@ ASSUMPTIONS = [
 
 MULTI = {"io_setslice3", "extend", "ins_before", "ins_after", "remove", "io_extend", "io_setslice", "in_update", "c_rauw", "c_rename",
          "c_rnv", "graph", "n_prepend", "n_append", "io_iadd"}
+
+
+def _raised_by_backing_tensor(exc) -> bool:
+    """The innermost frame that raised is the ``name`` setter of a tensor object (not of a Value): the
+    rename was rejected by the value's backing tensor, a collaborator of the IR."""
+    tb = exc.__traceback__
+    last = None
+    while tb is not None:
+        last = tb.tb_frame
+        tb = tb.tb_next
+    # protobuf raises from C code: the innermost *Python* frame is then the tensor's setter
+    if last is None or last.f_code.co_name != "name":
+        return False
+    obj = last.f_locals.get("self")
+    return obj is not None and not isinstance(obj, ir.Value) and hasattr(obj, "tobytes")
+
+
+def mechanism_site(w, op, res) -> str:
+    """Third component of a C06 signature.  For plain calls: the raising function (localisation that is
+    stable across seeds).  For the composite helpers whose partial application is a recorded finding the
+    label is derived from the *arguments* instead, so that it does not depend on private function names:
+    replace_nodes_and_values -> 'composite'; replace_all_uses_with(replace_graph_outputs=True) over
+    outputs of several graphs -> 'cross-graph-outputs'; a rename rejected by the value's backing tensor
+    -> 'rejected-by-backing-tensor'."""
+    k = op[0]
+    if k == "c_rnv":
+        return "composite"
+    if k in ("c_rename", "v_name", "in_set", "in_add", "in_reg") and _raised_by_backing_tensor(res.exc):
+        return "rejected-by-backing-tensor"
+    if k == "c_rauw" and op[3]:
+        try:
+            vals = w.Vs(op[1]) + w.Vs(op[2])
+            graphs = {id(v.graph) for v in vals if v.graph is not None and v.is_graph_output()}
+            if len(graphs) >= 2:
+                return "cross-graph-outputs"
+        except Exception:  # noqa: BLE001
+            pass
+    return histories.raise_site(res.exc)
 
 
 class SnapshotMonitor:
@@ -55,7 +94,7 @@ class SnapshotMonitor:
         d = snapshot.diff(pre, post)
         if not d:
             return None
-        kind = f"{histories.op_kind(op, res)}:{type(res.exc).__name__}@{histories.raise_site(res.exc)}"
+        kind = f"{histories.op_kind(op, res)}:{type(res.exc).__name__}@{mechanism_site(w, op, res)}"
         if self.only_kind is not None and kind != self.only_kind:
             return None
         out = []
